@@ -522,6 +522,12 @@ def run(ctx):
     ctx.guarded('C16-D5', 'correlators.py@projections', d5_projections, ctx, mod)
     ctx.guarded('C16-D6', 'mpm.py', d6_pencil, ctx)
     ctx.guarded('C16-D6', 'linalg.py:eig', d6b_general_eig, ctx)
+    from .. import hiddenstate
+    ctx.rule('C16-D7', 'no state shared between calls or between correlators (caches keyed by t0 / shapes)')
+    cm_ = ctx.repo.mod('correlators')
+    ctx.guarded('C16-D7', 'correlators.py@hidden-state', hiddenstate.check, ctx, 'C16-D7', cm_, ['Corr.GEVP', 'Corr.Eigenvalue', 'Corr.projected', 'Corr.prune', 'Corr.is_matrix_symmetric', 'Corr.matrix_symmetric',
+                                                                                              '_GEVP_solver', '_sort_vectors', '_get_mat_at_t'], 'the solution of the eigenvalue problem')
+    ctx.guarded('C16-D7', 'mpm.py@hidden-state', hiddenstate.check, ctx, 'C16-D7', ctx.repo.mod('mpm'), ['matrix_pencil_method'], 'the extracted energies')
 
 
 SELFTEST = [
